@@ -67,7 +67,7 @@ def pinnedSkeleton : List (String × String) := [
   ("parseSDL", "5c0f8828856d"),
   ("parser.deeper", "f95cc851b447"),
   ("parser.putBack", "53625e41ee42"),
-  ("parser.readArgValue", "88c58bf573bb"),
+  ("parser.readArgValue", "9028b5da71ab"),
   ("parser.readArgValues", "cdf8819b1f0b"),
   ("parser.readByte", "17681f2c239b"),
   ("parser.readDesc", "4d773b7bf13a"),
